@@ -2,9 +2,9 @@
 From Coq Require Import Permutation Sorted.
 From HTA.lib Require Import Base Sweep.
 From HTA.model Require Import C14_Model.
-From HTA.gen Require Import KernelRules_gen LaunchNames_gen.
+From HTA.gen Require Import KernelRules_gen LaunchNames_gen CounterRules_gen.
 From HTA.proof Require Import KernelRulesTie C14_Proofs.
-From HTA.proof Require Import Scale C14_Scale.
+From HTA.proof Require Import Scale C14_Scale C14_RulesTie.
 Open Scope list_scope.
 Open Scope Z_scope.
 
@@ -105,3 +105,17 @@ Theorem C14_queue_resolution_independent : forall k l s, 0 < k ->
   streams_of (scale_evs k l) = streams_of l.
 Proof. intros k l s Hk. split; [apply C14_queue_scale; exact Hk | apply C14_streams_scale]. Qed.
 Print Assumptions C14_queue_resolution_independent.
+
+(* the tie by regeneration, second part: the +1 of a launch and the -1 of a device activity, the test that makes a row a device row,
+   the order of rows inside one instant (launches first) and the 1 us floor of a zero-length copy are those READ from
+   TraceCounters._get_queue_length_time_series_for_rank / _get_memory_bw_time_series_for_rank, whose statement sequence the
+   translator accepts in exactly one shape *)
+Theorem C14_rules_follow_source : forall l,
+  (forall x y, q_lt x y = queue_before_gen (q_ts x) (q_delta x) (q_ts y) (q_delta y)) /\
+  dev_rows l = filter (fun e => is_dev_queue_gen (stream e)) l /\
+  Forall (fun r => q_delta r = launch_delta_gen) (launch_rows l) /\
+  Forall (fun r => q_delta r = kernel_delta_gen) (kernel_rows l) /\
+  (forall e, dur1 e = bw_dur_gen (dur e)) /\
+  (forall e, is_mem e = true -> is_dev_bw_gen (stream e) = true).
+Proof. exact counter_rules_are_generated. Qed.
+Print Assumptions C14_rules_follow_source.
